@@ -22,6 +22,7 @@ func scenPrints(out *scenOut, r *rng, thorough bool) {
 	}
 	printContent(out)
 	printThenAltThenQuit(out)
+	printlnKeepsItsPlace(out)
 }
 
 // printThenWhileFrameHeld: the ticker goroutine is inside the output writer with the frame that
@@ -226,5 +227,81 @@ func printThenAltThenQuit(out *scenOut) {
 	if n != 1 {
 		out.fail(finding{Property: "C14", Class: "new", What: "a line printed while the alt screen was not active never appears: the program entered the alt screen before the next frame and ended there", Input: desc,
 			Expected: "the line on the main screen exactly once", Observed: fmt.Sprint(n)})
+	}
+}
+
+// printlnKeepsItsPlace: one goroutine alternates Println / Printf and Send while the event loop is
+// slow. Print requests are messages like any other: they reach the loop (Update sees them) in the
+// order in which that goroutine issued them, between its own Sends - none overtaken, none lost
+// (C01: per-sender order; C14: every printed line appears).
+func printlnKeepsItsPlace(out *scenOut) {
+	ctl := newRecCtl()
+	buf := &safeBuffer{}
+	ctl.onUpdate = func(m tea.Msg, v int) tea.Cmd {
+		time.Sleep(300 * time.Microsecond) // the loop is usually busy when the next call arrives
+		return nil
+	}
+	run := startProgram(ctl, buf, tea.WithInput(nil), tea.WithoutSignalHandler(), tea.WithFPS(120))
+	desc := "one goroutine: Println(k), Send(k), Printf(k), Send(k') for k < 150 while Update takes 0.3 ms"
+	waitFor(2*time.Second, func() bool { return ctl.log.has("view-exit", "") })
+	run.p.Send(tea.WindowSizeMsg{Width: 60, Height: 20})
+	const n = 150
+	var want []string
+	for k := 0; k < n; k++ {
+		run.p.Println(fmt.Sprintf("line-%d", k))
+		want = append(want, fmt.Sprintf("printline %q", fmt.Sprintf("line-%d", k)))
+		run.p.Send(userMsg{4, 2 * k})
+		want = append(want, fmt.Sprintf("u4.%d", 2*k))
+		run.p.Printf("fmt-%d", k)
+		want = append(want, fmt.Sprintf("printline %q", fmt.Sprintf("fmt-%d", k)))
+		run.p.Send(userMsg{4, 2*k + 1})
+		want = append(want, fmt.Sprintf("u4.%d", 2*k+1))
+	}
+	run.p.Send(userMsg{6, 6})
+	waitFor(5*time.Second, func() bool { return ctl.log.has("update-exit", "u6.6") })
+	time.Sleep(40 * time.Millisecond)
+	run.p.Quit()
+	run.wait(4 * time.Second)
+	out.record("println-keeps-its-place", desc)
+	var got []string
+	for _, u := range updatesOf(ctl.log.snapshot()) {
+		if strings.HasPrefix(u, "printline ") || strings.HasPrefix(u, "u4.") {
+			got = append(got, u)
+		}
+	}
+	if strings.Join(got, "|") != strings.Join(want, "|") {
+		i := 0
+		for i < len(got) && i < len(want) && got[i] == want[i] {
+			i++
+		}
+		exp, obs := "(end)", "(end)"
+		if i < len(want) {
+			exp = want[i]
+		}
+		if i < len(got) {
+			obs = got[i]
+		}
+		for _, prop := range []string{"C01", "C14"} {
+			out.fail(finding{Property: prop, Class: "new", What: "print requests and messages issued by ONE goroutine did not reach the event loop in the order issued, once each", Input: desc,
+				Expected: fmt.Sprintf("position %d: %s (of %d)", i, exp, len(want)), Observed: fmt.Sprintf("%s (of %d)", obs, len(got))})
+		}
+	}
+	// and every line is on the terminal, in order
+	t := newVterm(60, 20)
+	t.write([]byte(buf.String()))
+	var rows []string
+	for r := 0; r < len(t.main.rows); r++ {
+		rows = append(rows, t.main.text(r))
+	}
+	screen := "\n" + strings.Join(rows, "\n") + "\n"
+	last := -1
+	for k := 0; k < n; k++ {
+		i := strings.Index(screen, fmt.Sprintf("\nline-%d\n", k))
+		j := strings.Index(screen, fmt.Sprintf("\nfmt-%d\n", k))
+		if i < 0 || j < 0 || i < last || j < i {
+			out.fail(finding{Property: "C14", Class: "new", What: "a printed line is missing from the terminal or out of order", Input: desc, Observed: fmt.Sprintf("line-%d at %d, fmt-%d at %d (previous at %d)", k, i, k, j, last)})
+			break
+		}
+		last = j
 	}
 }
